@@ -938,8 +938,8 @@ func (fx *fnExec) evalCall(x ECall, env *SpecEnv) SV {
 			panic(vcErr("unbox_ref(\"type\", v)"))
 		}
 		v := fx.sc(fx.evalSpec(x.Args[1], env), SInt)
-		fx.declareFun("unbox$"+k.V, []string{SInt}, SInt)
-		return Sc{app(SInt, "unbox$"+k.V, v), nil}
+		fx.declareFun("unbox$"+san(k.V), []string{SInt}, SInt)
+		return Sc{app(SInt, "unbox$"+san(k.V), v), nil}
 	case "unbox_str":
 		v := fx.sc(fx.evalSpec(x.Args[0], env), SInt)
 		fx.needStr()
